@@ -1,4 +1,4 @@
 From PV Require Import Base.Prelude Spec.P8FileSpec Instances.HoldsC03.
 Require Extraction.
 Require Import ExtrOcamlBasic.
-Extraction "../ocaml/build/MonC03.ml" io_types holds_C03 header_like code_in_format.
+Extraction "../ocaml/build/MonC03.ml" io_types holds_C03 holds_C03_short header_like code_in_format.
